@@ -1028,3 +1028,88 @@ PROPS['C20'] = {
                  'transfer\'s IOError, the journal ends with the chip-select release, the line is high and the decoder idle, the chip is '
                  'untouched, and the next access is decoded as a fresh transaction with its specified effect',
 }
+
+
+# ----------------------------------------------------------------------------- C16: belief = device
+def shadow_vs_chip(api, r):
+    """first address where the shadow dump differs from the chip register file after call r, or None"""
+    addrs = sorted(l['addr'] for l in api.leaves)
+    for a, b in zip(addrs, r.shadow):
+        if r.regs[a] != b:
+            return a, b, r.regs[a]
+    return None
+
+
+def coherence_programs(api, rng, n):
+    out = []
+    sweep = fault_sweep_programs(api, rng, ('i2c',), max_k=20)
+    rng.shuffle(sweep)
+    for k, p in enumerate(sweep[:n]):
+        calls = p.calls[:-1]
+        # recovery requests: re-assert the enables, retry a full reconfiguration
+        calls.append(Call('config_interrupts', setters=RICH_PREFIX[4][1]))
+        calls.append(Call('config_wkup_int', setters=[('with_axes', [True, False, True])]))
+        calls.append(Call('get_data'))
+        out.append(Prog('co%d' % k, 'i2c', calls, p.ro, p.fifo, p.pos, p.neg))
+    return out
+
+
+def check_coherence(api, prog, recs):
+    for r in recs[1:]:
+        if r.shadow is None:
+            continue
+        d = shadow_vs_chip(api, r)
+        if d:
+            return 'after %r (%s) the driver believes register 0x%02X = 0x%02X, the device holds 0x%02X' % (r.call, r.result_str(), d[0], d[1], d[2])
+    # the recovery request must have re-established the enables on the device
+    last_int = [r for r in recs[1:] if r.call.op == 'config_interrupts' and r.ok()]
+    if last_int and recs[-1].regs is not None:
+        r = last_int[-1]
+        if r.regs[0x1F] != 0x4E or r.regs[0x20] != 0x19:
+            return 'after re-asserting the enables the device holds INT_CONFIG0/1 = 0x%02X/0x%02X, requested 0x4E/0x19' % (r.regs[0x1F], r.regs[0x20])
+    return None
+
+
+def mon_c16(api, rng, budget, variants):
+    programs = coherence_programs(api, rng, budget)
+    programs += [p for p in api_programs(api, rng, max(50, budget // 4), ctors=('i2c',), fault_rate=0.3)]
+    recs = run_monitor_programs(programs)
+    viol = []
+    for p in programs:
+        msg = check_coherence(api, p, recs[p.id]) if p.id.startswith('co') else None
+        if msg is None and not p.id.startswith('co'):
+            for r in recs[p.id][1:]:
+                d = shadow_vs_chip(api, r) if r.shadow is not None else None
+                if d:
+                    msg = 'after %r (%s) the driver believes register 0x%02X = 0x%02X, the device holds 0x%02X' % (r.call, r.result_str(), d[0], d[1], d[2])
+                    break
+        if msg:
+            viol.append(violation('C16', p, msg))
+    return {'cases': len(programs), 'violations': viol[:20], 'samples': [programs[0].describe()],
+            'notes': ['every operation from the enable-rich state x every bus-fault position over I2C (a failed write is not applied), followed by '
+                      'recovery requests; shadow dump (hook verif_shadow) compared with the chip after every call']}
+
+
+def judge_c16(prog, recs):
+    api = P.Api()
+    for r in recs[1:]:
+        d = shadow_vs_chip(api, r) if r.shadow is not None else None
+        if d:
+            return 'after %r the driver believes register 0x%02X = 0x%02X, the device holds 0x%02X' % (r.call, d[0], d[1], d[2])
+    return None
+
+
+PROPS['C16'] = {
+    'targets': ['props/C16.vo'],
+    'theorems': [('props.C16', n) for n in ['c16_every_call', 'c16_every_history', 'c16_initial', 'c03_range_is_device', 'c19_flag_is_device', 'c16_enables_are_device']],
+    'corr_gen': lambda api, rng, n: coherence_programs(api, rng, n),
+    'corr_n': (300, 4000), 'monitor': mon_c16, 'monitor_n': (600, 20000), 'judge': judge_c16,
+    'statement': 'under the stated assumption (a failed register transaction is not applied), for every history of API calls with an arbitrary '
+                 'fault plan per call (any number of failing transactions, any positions): every register of the shadow configuration equals '
+                 'the chip register after every call, whatever its outcome (compositional proof over all generated bodies: each acknowledged '
+                 'write is mirrored by an update of exactly that shadow register to exactly that value; the self-test and command registers '
+                 'are outside the shadow; soft reset replaces the shadow by the reset values); consequences: the range used by get_data, the '
+                 'FIFO power flag and the interrupt enables the driver compares requests with are the device\'s',
+    'assumptions': ['chip-select pin failures over SPI (a write may be applied although the call reports ChipSelectPinError) are outside the '
+                    'property\'s assumption and outside this theorem; over I2C the HAL-level fault model coincides with T_reg'],
+}
